@@ -14,12 +14,18 @@ From HexVerif Require Import WMap Isa IsaMon Vexp RtlSem SimModel.
 Import ListNotations.
 Local Open Scope Z_scope.
 
-(* the constants of hextb.cpp and the shape of memory.sv's write, as parameters: [Current] is the tree as it is now,
-   [Legacy] the pinned tree (reset asserted from time 2 only, system calls sampled on every high clock phase, memory
-   write not qualified by !i_rst) *)
-Record params := { reset_begin : Z; reset_end : Z; gate_after_reset : bool; legacy_mem_write : bool }.
-Definition Current : params := {| reset_begin := 0; reset_end := 10; gate_after_reset := true; legacy_mem_write := false |}.
-Definition Legacy : params := {| reset_begin := 1; reset_end := 10; gate_after_reset := false; legacy_mem_write := true |}.
+(* the constants of hextb.cpp and the shape of memory.sv's write, as parameters.  [gate_from]: system-call requests are
+   sampled in clock-high phases from this time on.
+   [Current]  the tree as it is now: reset over times 1..9, requests sampled from the last reset edge (time RESET_END - 1,
+              when the processor is held in its start state and shows the request of the instruction at address 0);
+   [Previous] the tree between the two repairs: requests sampled only after reset (time > RESET_END), i.e. never for the
+              instruction at address 0;
+   [Legacy]   the pinned tree: reset asserted from time 2 only, requests sampled on every high clock phase, memory write
+              not qualified by !i_rst *)
+Record params := { reset_begin : Z; reset_end : Z; gate_from : Z; legacy_mem_write : bool }.
+Definition Current : params := {| reset_begin := 0; reset_end := 10; gate_from := 9; legacy_mem_write := false |}.
+Definition Previous : params := {| reset_begin := 0; reset_end := 10; gate_from := 11; legacy_mem_write := false |}.
+Definition Legacy : params := {| reset_begin := 1; reset_end := 10; gate_from := 0; legacy_mem_write := true |}.
 
 Record hidden := { hp_clk : bool; hp_rst : bool; hm_clk : bool; hm_rst : bool }.
 (* the power-on state: registers, every memory word (load() then overwrites the loaded region), the hidden bits *)
@@ -91,8 +97,7 @@ Definition handle_syscall (call : Z) (st : tb) (inp : inputs) : sys_result :=
 
 (* while (!gotFinish && (maxCycles > 0 ? cycle_count <= maxCycles : true)) *)
 Definition guard (max_cycles : Z) (st : tb) : bool := if 0 <? max_cycles then t_cycles st <=? max_cycles else true.
-Definition gate (p : params) (st : tb) : bool :=
-  t_clk st && (if gate_after_reset p then reset_end p <? t_time st else true).
+Definition gate (p : params) (st : tb) : bool := t_clk st && (gate_from p <=? t_time st).
 
 Inductive tb_end := TReturned (exit_code : Z) | TThrew | TUb | TNoFuel.
 
@@ -144,14 +149,10 @@ Fixpoint isa_phase (k : nat) (a : arch) (inp : inputs) (evs : list event) {struc
       | _ => (rev (push ev evs), inp', INoFuel)
       end
   end.
-(* the whole testbench run at the ISA level: ten iterations of reset, one that retires the first instruction (its
-   request is never sampled), then the phases *)
+(* the whole testbench run at the ISA level: eight iterations of reset in which nothing is sampled; the ninth (the last
+   reset edge) samples the request of the instruction at address 0, which retires two iterations later *)
 Definition isa_tb (fuel : nat) (a0 : arch) (inp : inputs) : list event * inputs * isa_end :=
-  if (fuel <=? 10)%nat then ([], inp, INoFuel) else
-  match Isa.step a0 inp with
-  | Ok (a1, inp1, _) => isa_phase (fuel - 11) a1 inp1 []
-  | Undefined _ => ([], inp, IStuck)
-  end.
+  if (fuel <=? 8)%nat then ([], inp, INoFuel) else isa_phase (fuel - 9) a0 inp [].
 Definition conv_end (e : tb_end) : isa_end :=
   match e with TReturned c => IReturned c | TNoFuel => INoFuel | _ => IStuck end.
 
@@ -179,7 +180,6 @@ Fixpoint wb_mon (D : Z -> bool) (n : nat) (a : arch) (inp : inputs) : bool :=
       end
   end.
 Definition region (n : Z) : Z -> bool := fun x => (0 <=? x) && (x <? n).
-(* well-behaved binary + input: along its whole ISA trace from the loaded words ws (everything else zero), and the very
-   first instruction is not a system call (its request is never sampled by the testbench) *)
+(* well-behaved binary + input: along its whole ISA trace from the loaded words ws (everything else zero) *)
 Definition well_behaved (nwords : Z) (ws : list Z) (inp : inputs) : Prop :=
-  fetch (boot ws) <> 211 /\ forall n, wb_mon (region nwords) n (boot ws) inp = true.
+  forall n, wb_mon (region nwords) n (boot ws) inp = true.
